@@ -161,6 +161,16 @@ class Env:
         if self.sym and isinstance(x, SymReal) and x.d is None:
             self.path.nonneg_hints.append(x.n)
 
+    def uf(self, name, conc):
+        """an uninterpreted real function (sym) with a fixed concrete stand-in (conc): statements proved with it
+        hold for every function"""
+        def f(*args):
+            if self.sym and any(core.is_sym(a) for a in args):
+                self.soft = True
+                return self.path.hooks._uf(name, list(args), conc(*[float(core.sym_value(a)) for a in args]))
+            return conc(*[float(a) for a in args])
+        return f
+
     def assume_eq(self, a, b):
         """equality assumption (in 'conc' mode compared with a tolerance: replayed models may be rounded)"""
         if self.sym:
